@@ -31,6 +31,15 @@ class ReprObj:
 
     def __init__(self, s: str):
         self.s = s
+        # decoys: a self-rendering object is not a Tag, whatever attributes it happens to have.  Half of the instances carry
+        # attributes named like a Tag's fields (a component that mimics the tag-function signature, or forwards attribute
+        # access to the tag it wraps); the library tells kinds apart by type, so they must make no difference
+        if len(s) % 2 == 0:
+            self.add_ws = True
+            if len(s) % 4 == 0:
+                self.name = "div"
+                self.attrs = {"class": "decoy"}
+                self.children = ["decoy"]
 
     def _repr_html_(self) -> str:
         # every third payload (by length) is handed over as an instance of a str SUBCLASS (markupsafe-style strings):
